@@ -44,7 +44,6 @@ def run_case(cfg, script, tail_loops=None, strict_sigchld=False):
         return orig_fork(master)
     w.k_kill = k_kill
     w.k_fork = k_fork
-    w.oracle_notes = []
     st = {"num": None, "loads": 0}
 
     def probe(world, code):
